@@ -1,10 +1,13 @@
 package formats
 
 import (
+	"bytes"
+	"encoding/json"
 	"fmt"
 	"io"
 	"log"
 	"time"
+	"unicode/utf8"
 
 	"github.com/valyala/fastjson"
 
@@ -70,7 +73,7 @@ func ValueToJson(arena *fastjson.Arena, t octosql.Type, value octosql.Value) *fa
 			return arena.NewFalse()
 		}
 	case octosql.TypeIDString:
-		return arena.NewString(value.Str)
+		return stringToJson(arena, value.Str)
 	case octosql.TypeIDTime:
 		return arena.NewString(value.Time.Format(time.RFC3339))
 	case octosql.TypeIDDuration:
@@ -96,6 +99,29 @@ func ValueToJson(arena *fastjson.Arena, t octosql.Type, value octosql.Value) *fa
 	default:
 		panic(fmt.Sprintf("invalid octosql value type to print: %s", value.TypeID.String()))
 	}
+}
+
+// stringToJson returns the JSON string for s. fastjson escapes strings that contain a quote, a backslash or a control
+// character with strconv.Quote, whose escapes (\x00, \a, \v, \x7f, \U000f0000, \xff) are not valid JSON, and writes
+// all other strings as they are, even if they are not valid UTF-8. Those strings are escaped with encoding/json instead.
+func stringToJson(arena *fastjson.Arena, s string) *fastjson.Value {
+	special := !utf8.ValidString(s)
+	for i := 0; i < len(s); i++ {
+		if s[i] < 0x20 || s[i] == '"' || s[i] == '\\' {
+			special = true
+			break
+		}
+	}
+	if !special {
+		return arena.NewString(s)
+	}
+	var buf bytes.Buffer
+	encoder := json.NewEncoder(&buf)
+	encoder.SetEscapeHTML(false)
+	if err := encoder.Encode(s); err != nil {
+		panic(fmt.Sprintf("couldn't encode string as JSON: %s", err))
+	}
+	return fastjson.MustParseBytes(buf.Bytes())
 }
 
 func (t *JSONFormatter) Close() error {
